@@ -22,7 +22,7 @@ RULE = ("for every (input dtype, output dtype) pair: alphabet = {input "
         "restricted to values the input type represents exactly; evaluated "
         "(a) all together in one array in 6 layouts (C, Fortran, strided, "
         "read-only, reversed, empty, big-endian dtype, big-endian array with a "
-        "native-dtype transformer) and (b) each value alone; both "
+        "native-dtype transformer; after the contiguous conversion the same converter is used on a second chunk and the first result must not change) and (b) each value alone; both "
         "preserve_input modes. One evaluation = one array element converted; "
         "non-trivial = the value is not preserved verbatim (needs rounding "
         "or saturation) or lies outside [-1, 1].")
@@ -171,6 +171,19 @@ def _evaluate(col, tin, tout, preserve, layout, values):
                     np.dtype(tin).newbyteorder(">") if layout == "bigendian"
                     else tin, tout, warn=False)
             res = tr(a, preserve_input=preserve)
+            if layout == "contig" and len(values) > 1:
+                # the same converter on another chunk of the same shape:
+                # the array returned for THIS chunk must not change
+                snap = res.copy()
+                other = ex.make_array(values[::-1], tin).reshape(a.shape)
+                tr(other, preserve_input=True)
+                if res.tobytes() != snap.tobytes():
+                    col.violation(
+                        "C11/earlier-result-changed-by-a-later-conversion",
+                        case, "returned arrays stay as returned",
+                        "the result of the first chunk changed when the "
+                        "converter was used on a second chunk")
+                    res = snap
         except Exception as exc:
             col.ev(n_elems, n_elems, "exception")
             col.violation("C11/exception/%s/preserve_input=%s/%s"
